@@ -149,4 +149,206 @@ theorem Ob_MapDataSlab_Set_heap (cfg : MCfg) (k : MKey) (v : Elem) (P : DG r →
 
 end
 
+/-! ### 3. one level of the descent -/
+
+section
+variable {r : Nat} (T : Nat) (eb : DEnvB r) (rs : DRestruct r)
+
+theorem mds_getMapSlab_found (s : MHSt r) (id : SlabID) (c : DSlab r) (hc : s.heap id = some c)
+    (hn : c.isNil = false) : getMapSlab (envD T eb rs) s id = (c, none, s) := by
+  simp only [getMapSlab, envD_retrieve, hc, Option.isNone_none, Bool.not_true, Bool.false_eq_true, if_false, hn,
+    Bool.not_false]
+
+theorem mds_getMapSlab_none (s : MHSt r) (id : SlabID) (hc : s.heap id = none) :
+    getMapSlab (envD T eb rs) s id = (.nil, some .slabNotFound, s) := by
+  simp only [getMapSlab, envD_retrieve, hc, Option.isNone_none, Bool.not_true, Bool.false_eq_true, if_false,
+    Bool.not_false, if_true, envD_snf]
+
+theorem mds_toNat (n : Nat) : (Int.ofNat n).toNat = n := rfl
+
+theorem mds_goInRange {β : Type} (l : List β) (n : Nat) (h : n < l.length) : goInRange l (Int.ofNat n) = true := by
+  simp [goInRange, h]
+
+theorem mds_goIdx_set {β : Type} (l : List β) (n : Nat) (p : β) (h : n < l.length) :
+    goIdx (l.set n p) (Int.ofNat n) = some p := by
+  rw [mds_goIdx_nat]
+  simp [h]
+
+/-- the dispatch `MapSlab.Set` never returns from / into a nil interface value -/
+theorem mds_Set_nonnil {G V W X D B S ε : Type} {env : Env G V W X D B S ε}
+    {rec_ : MapMetaDataSlab X → S → B → D → UInt64 → UInt64 → W → W → Option (Option V × Option V × Option ε × MapMetaDataSlab X × S)}
+    {child child' : MapSlab G X} {a1 s1 : S} {a2 : B} {a3 : D} {a4 a5 : UInt64} {a8 a9 : W} {ks old : Option V} {e : Option ε}
+    (h : MapSlab_Set env rec_ child a1 a2 a3 a4 a5 a8 a9 = some (ks, old, e, child', s1)) :
+    child.isNil = false ∧ child'.isNil = false := by
+  cases child with
+  | nil => simp [MapSlab_Set] at h
+  | dataSlab o =>
+    simp only [MapSlab_Set] at h
+    split at h
+    · cases h
+    · cases h; exact ⟨rfl, rfl⟩
+  | metaSlab o =>
+    simp only [MapSlab_Set] at h
+    split at h
+    · cases h
+    · cases h; exact ⟨rfl, rfl⟩
+
+/-- `m.childrenHeaders[i] = child.Header(); if i == 0 { m.header.firstKey = m.childrenHeaders[0].firstKey }` -/
+def mds_refresh (m : MapMetaDataSlab DX) (i : Nat) (h : MapSlabHeader) : MapMetaDataSlab DX :=
+  { m with childrenHeaders := m.childrenHeaders.set i h,
+           header := if i = 0 then { m.header with firstKey := h.firstKey } else m.header }
+
+/-- the result of `Set` after a restructuring call returned `q` -/
+def mds_tail (ks old : Option SV) (q : Option GE × MapMetaDataSlab DX × MHSt r × DSlab r) :
+    Option (Option SV × Option SV × Option GE × MapMetaDataSlab DX × MHSt r) :=
+  if (!q.1.isNone) = true then some (none, none, q.1, q.2.1, q.2.2.1) else some (ks, old, none, q.2.1, q.2.2.1)
+
+/-- what `MapMetaDataSlab.Set` does after the child `i` has been set successfully (new child `child'`, storage `s1`):
+    header `i` replaced by the child's, `firstKey` refreshed iff `i = 0`; then `SplitChildSlab` if the child is full,
+    else `MergeOrRebalanceChildSlab` if it underflows, else `storeSlab` of the index slab -/
+def mds_stepSpec (a : MapMetaDataSlab DX) (i : Nat) (ks old : Option SV) (child' : DSlab r) (s1 : MHSt r) :
+    Option (Option SV × Option SV × Option GE × MapMetaDataSlab DX × MHSt r) :=
+  let m1 := mds_refresh a i ((MapSlab_Header (envD T eb rs) child').getD {})
+  if (MapSlab_IsFull (envD T eb rs) child').getD false = true then
+    mds_tail ks old (rs.splitChild m1 s1 child' (Int.ofNat i))
+  else if ((MapSlab_IsUnderflow (envD T eb rs) child').getD (0, false)).2 = true then
+    mds_tail ks old (rs.mergeOrRebalance m1 s1 child' (Int.ofNat i)
+      ((MapSlab_IsUnderflow (envD T eb rs) child').getD (0, false)).1)
+  else some (ks, old, none, m1, s1.store m1.header.slabID (.metaSlab m1))
+
+/-- one level of `MapMetaDataSlab.Set` on ANY generated index slab `a`, given the result of the binary search, the child
+    in the heap, and the successful result of the dispatch on the child -/
+theorem mds_metaSet_step (a : MapMetaDataSlab DX) (s s1 : MHSt r) (dg : MKey) (lvl hk : UInt64) (w w' : SW)
+    (depth i : Nat) (i' j' : Int) (h0 : MapSlabHeader) (child child' : DSlab r) (ks old : Option SV)
+    (hloop : MapMetaDataSlab_Set.loop1 (envD T eb rs) a hk
+        ((Int.ofNat a.childrenHeaders.length - (0 : Int) + 1).toNat) (0 : Int) (0 : Int)
+        (Int.ofNat a.childrenHeaders.length) =
+      (.done (Int.ofNat i, i', j') :
+        Loop (Option (Option SV × Option SV × Option GE × MapMetaDataSlab DX × MHSt r)) (Int × Int × Int)))
+    (hh : a.childrenHeaders[i]? = some h0) (hchild : s.heap h0.slabID = some child)
+    (hset : MapSlab_Set (envD T eb rs) (MapMetaDataSlab_Set (envD T eb rs) depth) child s () dg lvl hk w w' =
+      some (ks, old, none, child', s1)) :
+    MapMetaDataSlab_Set (envD T eb rs) (depth + 1) a s () dg lvl hk w w' = mds_stepSpec T eb rs a i ks old child' s1 := by
+  obtain ⟨hn, hn'⟩ := mds_Set_nonnil hset
+  have hil : i < a.childrenHeaders.length := by
+    obtain ⟨h, _⟩ := List.getElem?_eq_some_iff.mp hh
+    exact h
+  unfold MapMetaDataSlab_Set
+  simp only [hloop, mds_goIdx_nat, hh, mds_getMapSlab_found T eb rs s _ child hchild hn, hset, Option.isNone_none,
+    Bool.not_true, Bool.false_eq_true, if_false, mds_goInRange _ _ hil, if_true, int_deq_zero, mds_toNat]
+  cases child' with
+  | nil => simp [MapSlab.isNil] at hn'
+  | dataSlab o =>
+    by_cases hi0 : i = 0
+    · subst hi0
+      simp only [MapSlab_Header, MapDataSlab_Header, decide_true, if_true, List.getElem?_set_self hil,
+        MapSlab_IsFull, MapSlab_IsUnderflow, mds_stepSpec, mds_refresh, Option.getD_some, mds_storeSlab_meta,
+        Option.isNone_none, Bool.not_true, Bool.false_eq_true, if_false, envD_splitChild, envD_mor, mds_tail]
+      rfl
+    · simp only [MapSlab_Header, MapDataSlab_Header, hi0, decide_false, if_false, Bool.false_eq_true,
+        MapSlab_IsFull, MapSlab_IsUnderflow, mds_stepSpec, mds_refresh, Option.getD_some, mds_storeSlab_meta,
+        Option.isNone_none, Bool.not_true, envD_splitChild, envD_mor, mds_tail]
+      rfl
+  | metaSlab o =>
+    by_cases hi0 : i = 0
+    · subst hi0
+      simp only [MapSlab_Header, MapMetaDataSlab_Header, decide_true, if_true, List.getElem?_set_self hil,
+        MapSlab_IsFull, MapSlab_IsUnderflow, mds_stepSpec, mds_refresh, Option.getD_some, mds_storeSlab_meta,
+        Option.isNone_none, Bool.not_true, Bool.false_eq_true, if_false, envD_splitChild, envD_mor, mds_tail]
+      rfl
+    · simp only [MapSlab_Header, MapMetaDataSlab_Header, hi0, decide_false, if_false, Bool.false_eq_true,
+        MapSlab_IsFull, MapSlab_IsUnderflow, mds_stepSpec, mds_refresh, Option.getD_some, mds_storeSlab_meta,
+        Option.isNone_none, Bool.not_true, envD_splitChild, envD_mor, mds_tail]
+      rfl
+
+/-- error case: the child is not in the heap -> `SlabNotFound`, `m` and the storage unchanged -/
+theorem mds_metaSet_notFound (a : MapMetaDataSlab DX) (s : MHSt r) (dg : MKey) (lvl hk : UInt64) (w w' : SW)
+    (depth i : Nat) (i' j' : Int) (h0 : MapSlabHeader)
+    (hloop : MapMetaDataSlab_Set.loop1 (envD T eb rs) a hk
+        ((Int.ofNat a.childrenHeaders.length - (0 : Int) + 1).toNat) (0 : Int) (0 : Int)
+        (Int.ofNat a.childrenHeaders.length) =
+      (.done (Int.ofNat i, i', j') :
+        Loop (Option (Option SV × Option SV × Option GE × MapMetaDataSlab DX × MHSt r)) (Int × Int × Int)))
+    (hh : a.childrenHeaders[i]? = some h0) (hchild : s.heap h0.slabID = none) :
+    MapMetaDataSlab_Set (envD T eb rs) (depth + 1) a s () dg lvl hk w w' =
+      some (none, none, some .slabNotFound, a, s) := by
+  unfold MapMetaDataSlab_Set
+  simp only [hloop, mds_goIdx_nat, hh, mds_getMapSlab_none T eb rs s _ hchild, Option.isNone_some, Bool.not_false,
+    if_true]
+
+/-- error case: the child's `Set` returned an error -> passed on, `m` unchanged, the storage is the child's -/
+theorem mds_metaSet_childErr (a : MapMetaDataSlab DX) (s s1 : MHSt r) (dg : MKey) (lvl hk : UInt64) (w w' : SW)
+    (depth i : Nat) (i' j' : Int) (h0 : MapSlabHeader) (child child' : DSlab r) (ks old : Option SV) (e : GE)
+    (hloop : MapMetaDataSlab_Set.loop1 (envD T eb rs) a hk
+        ((Int.ofNat a.childrenHeaders.length - (0 : Int) + 1).toNat) (0 : Int) (0 : Int)
+        (Int.ofNat a.childrenHeaders.length) =
+      (.done (Int.ofNat i, i', j') :
+        Loop (Option (Option SV × Option SV × Option GE × MapMetaDataSlab DX × MHSt r)) (Int × Int × Int)))
+    (hh : a.childrenHeaders[i]? = some h0) (hchild : s.heap h0.slabID = some child)
+    (hset : MapSlab_Set (envD T eb rs) (MapMetaDataSlab_Set (envD T eb rs) depth) child s () dg lvl hk w w' =
+      some (ks, old, some e, child', s1)) :
+    MapMetaDataSlab_Set (envD T eb rs) (depth + 1) a s () dg lvl hk w w' = some (none, none, some e, a, s1) := by
+  obtain ⟨hn, _⟩ := mds_Set_nonnil hset
+  unfold MapMetaDataSlab_Set
+  simp only [hloop, mds_goIdx_nat, hh, mds_getMapSlab_found T eb rs s _ child hchild hn, hset, Option.isNone_none,
+    Bool.not_true, Bool.false_eq_true, if_false, Option.isNone_some, Bool.not_false, if_true]
+
+theorem mds_hdrs_get {α : Type} (m : MMetaSlab α) (x : Option DX) (n : Nat) (h : n < m.childHdrs.length) :
+    (md_meta m x).childrenHeaders[n]? = some (md_hdr (m.childHdrs.getD n default)) := by
+  rw [← mds_goIdx_nat]
+  exact mds_goIdx_hdrs m x n h
+
+/-- `mds_refresh` on the translation of a model index slab is the translation of the model's `m1` of
+    `MMetaSlab.afterChild` (whatever the embedded children are) -/
+theorem mds_refresh_md_meta {α : Type} (m : MMetaSlab α) (x : Option DX) (i : Nat) (ch : MHdr) (cs : List α) :
+    mds_refresh (md_meta m x) i (md_hdr ch) =
+      md_meta ({ m with childHdrs := m.childHdrs.set i ch, children := cs,
+                        hdr := { m.hdr with firstKey := if i == 0 then ch.firstKey else m.hdr.firstKey } } : MMetaSlab α) x := by
+  by_cases h : i = 0 <;> simp [mds_refresh, md_meta, md_hdr, h, List.map_set]
+
+/-- ONE LEVEL OF `MapMetaDataSlab.Set` on the translation of a model index slab, for ANY `rs`, ANY `eb`: the binary
+    search finds the model's child index `i`; the child is fetched from the heap; after its `Set` succeeded (dispatch
+    result `hset`) header `i` is replaced by `child'.Header()`, `firstKey` refreshed iff `i = 0`, and then
+    `SplitChildSlab` iff `child'.IsFull()`, else `MergeOrRebalanceChildSlab` iff `child'.IsUnderflow()`, else `storeSlab`
+    (`mds_stepSpec`). -/
+theorem Ob_MapMetaDataSlab_Set_step {α : Type} (m : MMetaSlab α) (x : Option DX) (s s1 : MHSt r) (k : MKey) (v : Elem)
+    (depth : Nat) (hhk : k.dig 0 < 2^64) (hfk : ∀ h ∈ m.childHdrs, h.firstKey < 2^64)
+    (hlen : m.childHdrs.length < 2^62) (hil : mds_idx m.childHdrs (k.dig 0) < m.childHdrs.length)
+    (child child' : DSlab r) (ks old : Option SV)
+    (hchild : s.heap (m.childHdrs.getD (mds_idx m.childHdrs (k.dig 0)) default).id = some child)
+    (hset : MapSlab_Set (envD T eb rs) (MapMetaDataSlab_Set (envD T eb rs) depth) child s () k (u64 0) (u64 (k.dig 0))
+      (.key k) (.val v) = some (ks, old, none, child', s1)) :
+    MapMetaDataSlab_Set (envD T eb rs) (depth + 1) (md_meta m x) s () k (u64 0) (u64 (k.dig 0)) (.key k) (.val v) =
+      mds_stepSpec T eb rs (md_meta m x) (mds_idx m.childHdrs (k.dig 0)) ks old child' s1 := by
+  obtain ⟨i', j', hloop⟩ := mds_Set_loop1_top (V := SV) (ε := GE) (S := MHSt r) (envD T eb rs) m x (k.dig 0) hhk hfk hlen
+  exact mds_metaSet_step T eb rs (md_meta m x) s s1 k (u64 0) (u64 (k.dig 0)) (.key k) (.val v) depth _ i' j' _
+    child child' ks old hloop (mds_hdrs_get m x _ hil) hchild hset
+
+/-- the child is not in the heap: `SlabNotFound`, nothing changed -/
+theorem Ob_MapMetaDataSlab_Set_step_notFound {α : Type} (m : MMetaSlab α) (x : Option DX) (s : MHSt r) (k : MKey)
+    (v : Elem) (depth : Nat) (hhk : k.dig 0 < 2^64) (hfk : ∀ h ∈ m.childHdrs, h.firstKey < 2^64)
+    (hlen : m.childHdrs.length < 2^62) (hil : mds_idx m.childHdrs (k.dig 0) < m.childHdrs.length)
+    (hchild : s.heap (m.childHdrs.getD (mds_idx m.childHdrs (k.dig 0)) default).id = none) :
+    MapMetaDataSlab_Set (envD T eb rs) (depth + 1) (md_meta m x) s () k (u64 0) (u64 (k.dig 0)) (.key k) (.val v) =
+      some (none, none, some .slabNotFound, md_meta m x, s) := by
+  obtain ⟨i', j', hloop⟩ := mds_Set_loop1_top (V := SV) (ε := GE) (S := MHSt r) (envD T eb rs) m x (k.dig 0) hhk hfk hlen
+  exact mds_metaSet_notFound T eb rs (md_meta m x) s k (u64 0) (u64 (k.dig 0)) (.key k) (.val v) depth _ i' j' _
+    hloop (mds_hdrs_get m x _ hil) hchild
+
+/-- the child's `Set` returned an error: passed on, `m` unchanged, the storage is the one the child returned -/
+theorem Ob_MapMetaDataSlab_Set_step_childErr {α : Type} (m : MMetaSlab α) (x : Option DX) (s s1 : MHSt r) (k : MKey)
+    (v : Elem) (depth : Nat) (hhk : k.dig 0 < 2^64) (hfk : ∀ h ∈ m.childHdrs, h.firstKey < 2^64)
+    (hlen : m.childHdrs.length < 2^62) (hil : mds_idx m.childHdrs (k.dig 0) < m.childHdrs.length)
+    (child child' : DSlab r) (ks old : Option SV) (e : GE)
+    (hchild : s.heap (m.childHdrs.getD (mds_idx m.childHdrs (k.dig 0)) default).id = some child)
+    (hset : MapSlab_Set (envD T eb rs) (MapMetaDataSlab_Set (envD T eb rs) depth) child s () k (u64 0) (u64 (k.dig 0))
+      (.key k) (.val v) = some (ks, old, some e, child', s1)) :
+    MapMetaDataSlab_Set (envD T eb rs) (depth + 1) (md_meta m x) s () k (u64 0) (u64 (k.dig 0)) (.key k) (.val v) =
+      some (none, none, some e, md_meta m x, s1) := by
+  obtain ⟨i', j', hloop⟩ := mds_Set_loop1_top (V := SV) (ε := GE) (S := MHSt r) (envD T eb rs) m x (k.dig 0) hhk hfk hlen
+  exact mds_metaSet_childErr T eb rs (md_meta m x) s s1 k (u64 0) (u64 (k.dig 0)) (.key k) (.val v) depth _ i' j' _
+    child child' ks old e hloop (mds_hdrs_get m x _ hil) hchild hset
+
+end
+
 end Atree.TransEq
